@@ -50,6 +50,9 @@ type Shapes interface {
 	Big(a [32]byte, b [16]int) [32]byte
 	BigOnly(sum [20]byte)
 	Nested(parts ...[]byte) [][]string
+	P5R1(a int, b string, c bool, d float64, e []byte) error
+	Huge(block [512]byte, lba int)
+	CtxErr(ctx context.Context, key string) (map[string]int, error)
 }
 
 type Single interface {
